@@ -42,23 +42,49 @@ def run(ctx):
             calls.append({"op": "gather", "reg": "r"})
             jobs.append({"id": len(jobs), "calls": calls})
             meta.append((ci, o))
+    # families only a custom collector can supply (hand-built data-model values): random literals of every supported type,
+    # unset type, explicitly set zero timestamp, empty help — gathered through a registry and encoded
+    import c04
+    nbase = len(jobs)
+    for j in c04.gen_jobs(ctx):
+        lit = None
+        for cl in j["calls"]:
+            if "lit" in cl:
+                lit = cl["lit"]
+        if lit is None or j["tag"] == "exhaustive-strings" and j["id"] % 4:
+            continue
+        jobs.append({"id": len(jobs), "calls": [{"op": "families_json", "lit": lit}, {"op": "text_encode", "lit": lit, "mode": "to_string"}]})
+        meta.append((None, ()))
+    special = [
+        [{"name": "boot", "help": "h", "type": "GAUGE", "metrics": [{"labels": [["p", "e"]], "gauge": F(1.5), "ts": 0, "ts_force": True}]}],
+        [{"name": "untyped_default", "help": "h", "metrics": [{"labels": [], "counter": F(2.0)}]}],
+        [{"name": "nohelp", "type": "COUNTER", "metrics": [{"labels": [], "counter": F(2.0), "ts": -1}]}],
+        [{"name": "s", "help": "", "type": "SUMMARY", "metrics": [{"labels": [], "summary": {"count": 0, "sum": F(0.0), "q": []}}]}],
+        [{"name": "h0", "help": "x", "type": "HISTOGRAM", "metrics": [{"labels": [], "hist": {"count": 0, "sum": F(-0.0), "b": []}}]}],
+    ]
+    for lit in special:
+        descs = [{"fq_name": f["name"], "help": f.get("help") or "h", "const": [], "var": []} for f in lit]
+        calls = [{"op": "registry", "as": "r"}, {"op": "custom", "as": "cc", "descs": descs, "families": lit}, {"op": "register", "reg": "r", "obj": "cc"},
+                 {"op": "gather", "reg": "r"}, {"op": "text_encode", "reg": "r", "mode": "to_string"}, {"op": "families_json", "lit": lit}, {"op": "text_encode", "lit": lit, "mode": "to_string"}]
+        jobs.append({"id": len(jobs), "calls": calls})
+        meta.append((None, ()))
     ra = run_api(ctx, exe_pb, jobs, "pb", nproc=8)
     rb = run_api(ctx, exe_plain, jobs, "plain", nproc=8)
     nok = 0
     ncmp = 0
     for j, (ci, o) in zip(jobs, meta):
         a, b = ra[j["id"]], rb[j["id"]]
-        c = cases[ci]
+        c = cases[ci] if ci is not None else {"sel": ["custom-collector families"], "prefix": "", "common": []}
         ok = True
         for k, (call, x, y) in enumerate(zip(j["calls"], a, b)):
-            if call["op"] == "gather" and "ok" in x and "ok" in y:
+            if call["op"] in ("gather", "families_json") and "ok" in x and "ok" in y:
                 x = {"ok": strip(x["ok"])}
                 y = {"ok": strip(y["ok"])}
             ncmp += 1
             if x != y:
                 # localise: which build departs from the specification (first gather only)?
                 who = ""
-                if call["op"] == "gather" and k == len(scenario_calls(list(o), c["prefix"], c["common"])) - 1:
+                if ci is not None and call["op"] == "gather" and k == len(scenario_calls(list(o), c["prefix"], c["common"])) - 1:
                     wa = c07.compare(c, x.get("ok", [])) if "ok" in x else "failed"
                     wb = c07.compare(c, y.get("ok", [])) if "ok" in y else "failed"
                     who = " (vs Gather spec: protobuf build %s; plain build %s)" % (wa or "conforms", wb or "conforms")
@@ -67,7 +93,7 @@ def run(ctx):
                 ok = False
                 break
         nok += 1 if ok else 0
-    ctx.cov.update({"traces_validated_against_impl": nok, "scenarios": len(jobs), "scenarios_identical": nok, "call_results_compared": ncmp, "configurations": len(cases),
+    ctx.cov.update({"traces_validated_against_impl": nok, "scenarios": len(jobs), "custom_collector_family_scenarios": len(jobs) - nbase, "scenarios_identical": nok, "call_results_compared": ncmp, "configurations": len(cases),
                     "samples": [{"sel": cases[len(cases) // 2]["sel"], "prefix": cases[len(cases) // 2]["prefix"], "common": cases[len(cases) // 2]["common"]}],
                     "rule": "GatherGen configurations (TLC) executed as identical call sequences (creation, updates, registration, gather, text encoding, unregistration, further updates incl. NaN observation and child removal, re-registration) "
                             "by two harness binaries built from /repo with default features and with --no-default-features; every call result, every gathered structure and the TextEncoder bytes must be identical; differences are localised against the Gather spec"})
@@ -82,7 +108,7 @@ def replay(path):
     b = run_api(ctx, build_harness(plain=True), [{"id": 0, "calls": rp["calls"]}], "plain")[0]
     bad = False
     for call, x, y in zip(rp["calls"], a, b):
-        if call["op"] == "gather" and "ok" in x and "ok" in y:
+        if call["op"] in ("gather", "families_json") and "ok" in x and "ok" in y:
             x, y = {"ok": strip(x["ok"])}, {"ok": strip(y["ok"])}
         if x != y:
             print("  differs at", json.dumps(call)[:200]); print("    protobuf:", json.dumps(x)[:400]); print("    plain:   ", json.dumps(y)[:400])
